@@ -12,7 +12,8 @@ RULE = ("(i) one z3 inductive step per node kind and template instance: with eve
 def check(run, only=None):
     syn = synx.Syntax(run)
     helper = synx.Helper(run)
-    pr = printsmt.Printer(run, syn)
+    pr = printsmt.Printer(run, syn, helper)
+    run.extra["display_templates"] = pr.origin
     if not only or "tree" in only or only in pr.templates:
         printsmt.check_trees(run, pr, syn, helper, only=None if (not only or "tree" in only) else only)
     if not only or "leaf" in only:
